@@ -8,6 +8,15 @@ Definition fuel_for (gs : glyphset) : nat := S (length gs).
 (* model: what OTFPreProcessor's DecomposeComponentsFilter leaves in the glyph set *)
 Definition model_decomposed (gs : glyphset) (n : str) : option (list contour) :=
   match assoc n gs with Some g => decompose (fuel_for gs) gs g | None => None end.
+(* ... and what the whole filter pass (in place, in the given visiting order) leaves *)
+Definition model_pass (order : list str) (gs : glyphset) (n : str) : option (list contour) :=
+  match decompose_pass (fuel_for gs) order gs with
+  | Some gs' => match assoc n gs' with
+                | Some g => match gcomps g with [] => Some (gcontours g) | _ :: _ => None end
+                | None => None
+                end
+  | None => None
+  end.
 (* spec: the nested resolved outline *)
 Definition spec_resolved (gs : glyphset) (n : str) : option (list contour) :=
   match assoc n gs with Some g => resolve (S (fuel_for gs)) gs g | None => None end.
@@ -20,8 +29,8 @@ Definition cff_view (tol : Qc) (cs : list contour) : list contour :=
 Definition bits (m s : bool) : Z := ((if m then 1 else 0) + (if s then 2 else 0))%Z.
 
 (* structural case: the filtered glyph set as observed *)
-Definition c01_struct (gs : glyphset) (obs : list (str * list contour)) : Z :=
-  bits (forallb (fun no => opt_outline_eqb (model_decomposed gs (fst no)) (Some (snd no))) obs)
+Definition c01_struct (gs : glyphset) (order : list str) (obs : list (str * list contour)) : Z :=
+  bits (forallb (fun no => opt_outline_eqb (model_pass order gs (fst no)) (Some (snd no))) obs)
        (forallb (fun no => opt_outline_eqb (spec_resolved gs (fst no)) (Some (snd no))) obs).
 
 (* semantic case: per glyph the drawn outline (as point contours) and hmtx advance *)
